@@ -176,7 +176,32 @@ def perturb_const(rng, c):
     return c
 
 
-RIGHT = ["commute", "reassociate", "dup-or", "absorb", "distribute", "set-reorder", "numeric-equal", "neq-vs-not-eq"]
+RIGHT = ["commute", "reassociate", "dup-or", "absorb", "distribute", "set-reorder", "numeric-equal", "neq-vs-not-eq", "distribute-fully"]
+
+
+def distribute_fully(e):
+    """AND / FOLLOWEDBY distributed over OR again and again, until no OR is left below them (observations and qualifiers are not split)"""
+    k = e[0]
+    if k in ("and", "oand", "ofb"):
+        ork = "or" if k == "and" else "oor"
+        ops = [distribute_fully(x) for x in e[1]]
+        for i, x in enumerate(ops):
+            if x[0] == ork:
+                alts = [distribute_fully((k, ops[:i] + [a] + ops[i + 1:])) for a in x[1]]
+                flat = []
+                for a in alts:
+                    flat.extend(a[1] if a[0] == ork else [a])
+                return (ork, flat)
+        return (k, ops)
+    if k in ("or", "oor"):
+        flat = []
+        for x in e[1]:
+            x = distribute_fully(x)
+            flat.extend(x[1] if x[0] == k else [x])
+        return (k, flat)
+    if k == "obs":
+        return ("obs", distribute_fully(e[1]))
+    return e
 WRONG = ["dup-and", "commute-followedby", "flip-not", "perturb-constant", "perturb-operator", "distribute-qualifier", "merge-observations",
          "drop-operand", "perturb-qualifier", "and-to-or", "absorb-wrong", "perturb-path-step"]
 STEP_SWAPS = {("i", "*"): [("k", "*"), ("i", 0)], ("k", "*"): [("i", "*")], ("i", 0): [("k", "0"), ("i", "*"), ("i", 1)], ("i", 1): [("k", "1"), ("i", "*"), ("i", 0)],
@@ -246,6 +271,10 @@ def rewrite(rng, e, kind):
                 i = rng.choice(idx)
                 alts = ops[i][1]
                 new = (ork, [(k, ops[:i] + [a] + ops[i + 1:]) for a in alts])
+        elif kind == "distribute-fully" and k in ("and", "oand", "ofb"):
+            d = distribute_fully(s)
+            if d != s:
+                new = d
         elif kind == "set-reorder" and k == "cmp" and s[4][0] == "set" and len(s[4][1]) >= 2:
             items = list(s[4][1])
             rng.shuffle(items)
@@ -364,6 +393,16 @@ def shape_for(rng, kind):
         if rng.random() < 0.5:
             return (rng.choice(["oand", "ofb"]), [o(), ("oor", [o(), o()])])
         return ("obs", ("and", [simple_cmp(rng, t), ("or", [simple_cmp(rng, t), simple_cmp(rng, t)])]))
+    if kind == "distribute-fully":
+        # three and four alternating levels, inside one observation and between observations
+        c = lambda: simple_cmp(rng, t)       # noqa: E731
+        if rng.random() < 0.6:
+            inner = ("and", [c(), ("or", [c(), c()])]) if rng.random() < 0.5 else ("and", [("or", [c(), c()]), c()])
+            mid = ("or", [c(), inner]) if rng.random() < 0.5 else ("or", [inner, c()])
+            top = ("and", [c(), mid]) if rng.random() < 0.5 else ("and", [mid, c()])
+            return ("obs", top)
+        inner = (rng.choice(["oand", "ofb"]), [o(), ("oor", [o(), o()])])
+        return (rng.choice(["oand", "ofb"]), [o(), ("oor", [o(), inner])])
     if kind == "set-reorder":
         c = ("set", tuple(("int", v) for v in rng.sample(range(1, 50), 3)))
         return ("obs", ("and", [("cmp", simple_path(rng, t), "IN", rng.random() < 0.3, c), simple_cmp(rng, t)]))
@@ -552,10 +591,54 @@ RESPELL6 = [("2001:db8:0:0::1", "2001:db8::1"), ("2001:DB8::1", "2001:db8::1"), 
 RESPELLK = [("HKEY_LOCAL_MACHINE\\\\Foo\\\\S+", "hkey_local_machine\\\\foo\\\\s+"), ("\\S+", "\\s+"), ("^HKLM\\\\\\D", "^hklm\\\\\\d"), ("[A-Z]+", "[a-z]+"), ("\\W", "\\w")]
 
 
+# strings which are no spelling of a dotted-decimal address / hexadecimal IPv6 address / decimal prefix at all (although the platform's
+# address functions or int() would take them): under = they are plain different strings
+NOT_SPELLINGS = [("ipv4-addr", "127.1", "127.0.0.1"), ("ipv4-addr", "10", "0.0.0.10"), ("ipv4-addr", "1.2.3.4 x", "1.2.3.4"), ("ipv4-addr", "0x7f.0.0.1", "127.0.0.1"),
+                 ("ipv4-addr", "16909060", "1.2.3.4"), ("ipv4-addr", "1.2.3.4/+8", "1.0.0.0/8"), ("ipv4-addr", "1.2.3.4/ 8", "1.0.0.0/8"),
+                 ("ipv4-addr", "1.2.3.4/1_6", "1.2.0.0/16"), ("ipv4-addr", "1.2.3.4/\u0668", "1.0.0.0/8"), ("ipv4-addr", "\u0661.2.3.4", "1.2.3.4"),
+                 ("ipv4-addr", "1.2.3.4\n", "1.2.3.4"), ("ipv4-addr", " 1.2.3.4", "1.2.3.4"), ("ipv4-addr", "1.2.3.4/8 ", "1.0.0.0/8"),
+                 ("ipv6-addr", "::1/+128", "::1"), ("ipv6-addr", "::1/ 8", "::/8"), ("ipv6-addr", "2001:db8::1/1_6", "2001::/16"),
+                 ("ipv6-addr", "::1/\u0668", "::/8"), ("ipv6-addr", "::1 ", "::1")]
+# constants of other kinds on the specially canonicalised paths: their text is not the compared value
+OTHER_KINDS = [("windows-registry-key", (("k", "key"),), ("bin", "QUJD"), ("bin", "qujd")), ("windows-registry-key", (("k", "key"),), ("hex", "ab"), ("hex", "cd")),
+               ("ipv4-addr", (("k", "value"),), ("hex", "1234"), ("hex", "1234")), ("ipv4-addr", (("k", "value"),), ("bin", "MTIzNA=="), ("bin", "MTIzNA==")),
+               ("ipv4-addr", (("k", "value"),), ("bin", "MS4yLjMuNA=="), ("str", "1.2.3.4")), ("ipv6-addr", (("k", "value"),), ("hex", "1234"), ("hex", "1234")),
+               ("ipv4-addr", (("k", "value"),), ("int", 16909060), ("str", "1.2.3.4")), ("windows-registry-key", (("k", "values"), ("i", 0), ("k", "name")), ("bin", "QUJD"), ("bin", "qujd"))]
+
+
 def wl_specials(ctx, rng, i):
     """Soundness on the specially canonicalised paths, for the operators whose meaning is plain string comparison / pattern
     matching: a respelled operand (another spelling of the same address, another letter case) is a different operand there."""
-    fam = ["v4", "v6", "key"][i % 3]
+    fam = ["v4", "v6", "key", "not-a-spelling", "other-kind"][i % 5]
+    if fam in ("not-a-spelling", "other-kind"):
+        if fam == "not-a-spelling":
+            t, c1, c2 = NOT_SPELLINGS[(i // 5) % len(NOT_SPELLINGS)]
+            path, k1, k2 = (t, (("k", "value"),)), ("str", c1), ("str", c2)
+        else:
+            t, steps, k1, k2 = OTHER_KINDS[(i // 5) % len(OTHER_KINDS)]
+            path = (t, steps)
+        op = rng.choice(["=", "=", "!="])
+        same_operand = k1 == k2
+        a, b = ("cmp", path, op, False, k1), ("cmp", path, op, False, k2)
+        ptxt, qtxt = prepare(rng, ("obs", a)), prepare(rng, ("obs", b))
+        if not ptxt or not qtxt:
+            ctx.skip("generator error")
+            return
+        ctx.count("special_pairs")
+        ctx.see("special families", "%s:%s" % (fam, op))
+        ctx.nontrivial("special", fam, op, repr(k1), repr(k2))
+        ans = lib_eq(ctx, ptxt, qtxt, [("obs", a), ("obs", b)], "special: " + fam)
+        ctx.ev()
+        if ans is None:
+            return            # (lib_eq has reported the failure)
+        if same_operand and not ans:
+            ctx.violation("not-reflexive", "a pattern with a %s constant on %s is not equivalent to itself" % (k1[0], t), {"pattern": ptxt})
+        elif not same_operand and ans:
+            ctx.violation("unsound:special-respelling:" + ("not-an-address-spelling" if fam == "not-a-spelling" else "constant-of-another-kind"),
+                          "%s and %s are reported equivalent: the operands are different values" % (ptxt, qtxt), {"pattern1": ptxt, "pattern2": qtxt})
+        else:
+            ctx.count("special_pairs_kept_apart" if not same_operand else "special_true_answers_confirmed")
+        return
     if fam == "v4":
         path, (c1, c2) = ("ipv4-addr", (("k", "value"),)), rng.choice(RESPELL4)
         op = rng.choice(["MATCHES", "LIKE", "<", ">", "<=", ">="])
